@@ -416,6 +416,20 @@ theorem builtins_satisfy_hypotheses :
      tableWellFormed asciiWord Gen.cms_miniaodBuiltins && tablePrefixOk Gen.cms_miniaodBuiltins) = true := by
   decide
 
+/-- The built-ins have their documented signatures (README "getAttributeFloat or
+getAttributeVectorFloat"; `DeltaR(eta1, phi1, eta2, phi2)`; `isNonnull(object)`; `getAttribute`
+refuses): style, number of arguments, value or collection. -/
+theorem builtins_signatures :
+    (sigOf Gen.atlasBuiltins "DeltaR" = some (false, 4, false) ∧
+     sigOf Gen.atlasBuiltins "getAttributeFloat" = some (true, 1, false) ∧
+     sigOf Gen.atlasBuiltins "getAttributeVectorFloat" = some (true, 1, true) ∧
+     Gen.atlasBuiltins.get? "getAttribute".toList = some .refuse ∧
+     sigOf Gen.cms_aodBuiltins "DeltaR" = some (false, 4, false) ∧
+     sigOf Gen.cms_aodBuiltins "isNonnull" = some (false, 1, false) ∧
+     sigOf Gen.cms_miniaodBuiltins "DeltaR" = some (false, 4, false) ∧
+     sigOf Gen.cms_miniaodBuiltins "isNonnull" = some (false, 1, false)) := by
+  decide
+
 /-- What `isNonnull` injects on both CMS back ends is what the model's `Handler.nonnull` injects,
 and there is one such handler per CMS back end. -/
 theorem nonnull_is_modelled :
